@@ -222,7 +222,7 @@ fn svd_short<const D: usize>(b: &SvdBasis<D>, s: f64) -> Value {
     let cq: Vec<i64> = c.iter().map(|v| q.q(*v / s, QC)).collect();
     let basis: Vec<Vec<i64>> = (0..D).map(|k| pad3::<D>(b.basis[k].as_slice()).iter().map(|v| q.q(*v, QB)).collect()).collect();
     let sv: Vec<i64> = b.sv.iter().map(|v| q.q(*v / s, QS)).collect();
-    json!({"c": cq, "basis": basis, "sv": sv, "rank": b.rank(1e-6 * s), "n": b.n, "finite": q.finite})
+    json!({"c": cq, "basis": basis, "sv": sv, "rank": b.rank(1e-6 * s), "rank9": b.rank(1e-9 * s), "n": b.n, "finite": q.finite})
 }
 
 fn svd_full<const D: usize>(b: &SvdBasis<D>, pts: &[Point<f64, D>], w: Option<&[f64]>, qs: &[Point<f64, D>], s: f64) -> Value {
